@@ -607,3 +607,22 @@ _add("C10", "ADDED: known finding D11 (bzip2.Reader over a byte-at-a-time source
 _add("C14", "ADDED: bzip2.Reader.Reset at implementation level: from ANY state with its six Decoder objects (every reachable state has "
      "them) the Reader after Reset refines libbzip2 exactly as a new one (bzip2_reader_reset_refines_libbzip2, "
      "bzip2_reader_reachable_has_six_decoders); Reset sequences are part of the per-call correspondence WBZIMPL.")
+
+_METAR = ("ADDED: meta.Reader ITSELF at implementation level (Meta/ReaderImpl.v: Read loop, decodeBlock over the bit-reader model on both "
+          "source kinds, the temporary bit writer, errors.Recover with the deferred Flush, FinalMode, counters; compared with the real "
+          "Reader PER CALL - bytes, error class, InputOffset, OutputOffset, NumBlocks, FinalMode, source position, Close, Reset: "
+          "WMETAR; proofs Meta/ReaderImplSim.v, ReaderImplThms.v): ")
+_add("C16", _METAR + "it REFINES the decoder of Meta/Model.v for every input, source kind and script and every Read schedule "
+     "(meta_reader_implementation_refines_model): delivered bytes = the specification's output, io.EOF exactly when it accepts, "
+     "otherwise its error class (the classes never differ on any source kind), FinalMode and NumBlocks the specification's, "
+     "InputOffset = source position = end of the final block.")
+_add("C11", _METAR + "after EVERY call OutputOffset = bytes delivered, InputOffset = bytes taken from the source, NumBlocks = blocks "
+     "decoded (meta_reader_counters_are_exact); at io.EOF InputOffset and the source position are the end of the final block on "
+     "both source kinds: nothing beyond the stream is consumed (meta_reader_consumes_exactly_the_stream).")
+_add("C10", _METAR + "delivered bytes and final error class depend neither on the Read sizes nor on the source kind or script "
+     "(meta_reader_is_schedule_independent).")
+_add("C09", _METAR + "from ANY state the first error is returned by every later Read with no bytes and nothing changes; Close "
+     "succeeds exactly when no error other than io.EOF is latched (meta_reader_latch_and_close).")
+_add("C18", _METAR + "after a successful Close every Read returns the closed error; Close is idempotent and touches neither the source "
+     "nor the counters (meta_reader_closed_means_closed).")
+_add("C14", _METAR + "Reset from ANY state gives exactly the state of NewReader (meta_reader_reset_is_new).")
